@@ -85,6 +85,11 @@ class WebSocketClient final : public std::enable_shared_from_this<WebSocketClien
 public:
   using TextCallback = std::function<void(const std::string&)>;
   using BinaryCallback = std::function<void(const std::vector<std::uint8_t>&)>;
+  /// Largest frame payload accepted from the server (same default as
+  /// WebSocketServer's maxFrameSize). A frame declaring more is refused from its
+  /// header, so the client never buffers towards it.
+  static constexpr std::uint64_t kMaxFramePayload = 16 * 1024 * 1024;
+
   using ConnectCallback = std::function<void(const std::string& subprotocol)>;
   using CloseCallback = std::function<void(std::uint16_t code, const std::string& reason)>;
   using ErrorCallback = std::function<void(const std::string& message)>;
@@ -795,12 +800,38 @@ private:
       core::BufferView view(localBuffer.data() + offset,
                             localBuffer.size() - offset);
       std::size_t consumed = 0;
-      auto frame = WebSocketFrame::parse(view, consumed);
-      if (!frame) break;
+      WebSocketFrame frame;
+      auto status = WebSocketFrame::parse(view, consumed, frame, kMaxFramePayload);
+      if (status == WebSocketFrame::ParseStatus::Incomplete) break;
+      if (status != WebSocketFrame::ParseStatus::Complete)
+      {
+        // The bytes can never become an acceptable frame (malformed control
+        // frame, impossible or oversize declared length). Waiting for "the rest"
+        // would buffer whatever the peer sends without bound: send a close
+        // frame, drop what is buffered and close the TCP connection.
+        const bool tooBig = (status == WebSocketFrame::ParseStatus::TooBig);
+        sendClose(tooBig ? 1009 : 1002, tooBig ? "Message Too Big" : "Protocol error");
+        if (_onError)
+        {
+          _onError(tooBig ? "Frame exceeded the maximum payload size" : "Malformed WebSocket frame");
+        }
+        std::shared_ptr<Transport> t;
+        SessionId sid = 0;
+        {
+          std::lock_guard<std::mutex> lock(_transportMutex);
+          t = _transport;
+          sid = _sessionId;
+        }
+        if (t && sid != 0)
+        {
+          t->close(sid);
+        }
+        return;
+      }
       offset += consumed;
 
       // handleFrame fires callbacks — must be outside lock
-      handleFrame(*frame);
+      handleFrame(frame);
     }
 
     // Step 4: Put unconsumed remainder back under lock
